@@ -357,7 +357,7 @@ def run_wcmatch(desc):
     out = Outcome()
     import os
     with util.temp_root() as root:
-        names = ['A', 'x41', 'a b', '*', 'a1', '1']
+        names = ['A', 'x41', 'a b', '*', 'a1', '1', 'n', '101', 'xyz']
         util.build_tree(root, [('f', n) for n in names])
         for p in ['\\x41', '\\101', '\\u0041', '\\N{DIGIT ONE}', '\\x2a', '\\\\x41', 'a\\x20b', '\\x41|\\x31', '[\\x41-\\x42]', '\\N{LATIN SMALL LETTER A}1']:
             dec = decode(p, False)
@@ -370,7 +370,9 @@ def run_wcmatch(desc):
                               bucket=('wcmatch',))
         # the file-system walker: inclusion, inline exclusion and exclude= patterns all go through the decoder, str and bytes
         from ..util import WP
-        for p in ['\\x41', '\\101', '\\u0041', '\\N{DIGIT ONE}', '\\x2a', 'a\\x20b', '[\\x41-\\x42]', '\\x41*', '\\x61\\x31']:
+        for p in ['\\x41', '\\101', '\\u0041', '\\N{DIGIT ONE}', '\\x2a', 'a\\x20b', '[\\x41-\\x42]', '\\x41*', '\\x61\\x31',
+                  # an escape that decodes to a backslash, followed by text that would itself read as an escape: decoded ONCE
+                  '\\x5cx41', '\\134n', '\\u005c101', '\\N{REVERSE SOLIDUS}xyz', '\\x5c\\x5cx41']:
             dec = decode(p, False)
             for how in ('include', 'exclude=', 'inline', 'exclude-list', 'pathlib-exclude', 'bytes-exclude'):
                 out.evaluations += 1
